@@ -3,6 +3,7 @@ import itertools
 import warnings
 
 import numpy
+import xarray
 
 import emsarray  # noqa: F401
 from coqio import Ctor, Some, coq_eval_sharded, to_coq
@@ -115,7 +116,7 @@ def run(ctx):
             for k, xy in {0: (0, 0), 1: (8, 0), 2: (16, 0), 65539: (4, 8), 65540: (12, 8), 65541: (20, 8)}.items():
                 big[k] = xy
             nodes, faces = big, [[0, 1, 65539], [1, 65540, 65539], [1, 2, 65540], [2, 65541, 65540]]
-        encs = list(itertools.product([0, 1], ['nan', 'attr'], [False, True]))
+        encs = list(itertools.product([0, 1], ['nan', 'attr'], [False, True])) + [(1, 'attr0', False), (1, 'attr0', True)]
         subsets = [set(c) for r in range(5) for c in itertools.combinations(OPTIONAL, r)]
         if quick:
             combos = [(e, rng.choice(subsets)) for e in encs] + [(rng.choice(encs), s) for s in rng.sample(subsets, 6)]
@@ -126,8 +127,13 @@ def run(ctx):
             # one-based meshes: sometimes the optional tables are zero-based and carry no start_index attribute of their own
             bare = tuple(sorted(sup)) if (si == 1 and sup and rng.random() < 0.35) else ()
             d = gen.ugrid(rng, mesh=(nodes, faces), start_index=si, fill=fill, transposed=tr, supplied=sup, invalid=False,
-                          bare_zero_based=bare)
+                          bare_zero_based=bare, extra_width=rng.choice([0, 0, 0, 2]))
             ctx.count(f'optional tables zero-based without start_index:{bool(bare)}')
+            # a dataset with exactly two time records whose data come before the mesh variables: another dimension of length 2
+            # precedes 'Two'
+            if rng.random() < 0.4:
+                d.ds = gen.prepend_var(d.ds, 'aaa_series', xarray.DataArray(numpy.zeros((2, 2)), dims=['time', 'pair']))
+                ctx.count('another dimension of length two comes first')
             s = d.spec
             label = s['label']
             ems = d.ds.ems
